@@ -138,7 +138,12 @@ func (c *gengoCtx) pkgChanged(pkgPath string) bool {
 	if previous == nil || current == nil {
 		return true
 	}
-	return previous.Sum(pkgPath) != current.Sum(pkgPath)
+	currentSum := current.Sum(pkgPath)
+	if currentSum == "" {
+		// dir of pkg could not be hashed, never trust as cached
+		return true
+	}
+	return previous.Sum(pkgPath) != currentSum
 }
 
 func (c *gengoCtx) pkgExecute(pctx corecontext.Context, pkg string, generators ...Generator) (finalErr error) {
